@@ -244,17 +244,21 @@ PROPS['C04'] = {
 for _u in PROPS['C04']['units']:
     PROPS['C07']['units'].append(_u)
 PROPS['C15'] = {
-    'units': ['doc_kotlin', 'doc_swift', 'doc_scala', 'doc_go'],
-    'title': 'documentation text is carried only inside comments of the generated code (line-comment kernel)',
+    'units': ['doc_kotlin', 'doc_swift', 'doc_scala', 'doc_go', 'doc_ts'],
+    'title': 'documentation text is carried only inside comments of the generated code (line-comment kernel + TypeScript block comments)',
     'technique': 'Verus postconditions on write_comment / write_comments of the four line-comment back ends (Kotlin, Swift, Scala, Go; extracted '
                  'verbatim) over a ghost text sink: the writeln! site through a contract generated from its literal, the marker taken from the literal '
-                 'itself; str::split on line breaks as iteration over break-free pieces',
+                 'itself; str::split on line breaks as iteration over break-free pieces; plus a postcondition on TypeScript::write_comments (block '
+                 'comment): the three format! literals through generated contracts and per-character lemmas, the proof generic in their pieces',
     'level_text': 'For every doc string (any characters: line feeds, carriage returns, comment terminators, quote sequences, backslashes), any '
                   'indentation and any number of comments: the text the writer appends is a sequence of whole lines, each of the form indentation + a '
                   'marker starting with `//` + text without a line break + line feed - so every byte of the doc text lies between `//` and the end of its '
-                  'line and cannot become code.',
-    'level_note': 'Kernel: the comment writers of Kotlin, Swift, Scala and Go. TypeScript (block comment, `*/` written `*\\/`) and Python (docstring, '
-                  '`\"\"\"` escaped; `#` comments per line) build their comment with replace / join chains: NOT proved, bounded stand-in doc-search only. '
+                  'line and cannot become code. TypeScript: for every non-empty comment list the appended text is indentation + `/*` + body + `*/` + line feed '
+                  'where the body (the literals\' own text, the indentation, the escaped doc strings, the separator between them) contains no `*/` - the '
+                  'comment ends exactly where the writer ends it - GIVEN that the `*/` -> `*\\/` replacement leaves no `*/` in a doc string (assumed).',
+    'level_note': 'Kernel: the comment writers of Kotlin, Swift, Scala, Go and TypeScript. For TypeScript the str::replace step is an assumed '
+                  'contract (its omission or a different replacement loses the anchor: undecided, left to the stand-in). Python (docstring, '
+                  '`\"\"\"` escaped; `#` comments per line) is NOT proved: bounded stand-in doc-search only (its lexical argument - backslash parity before a quote run - is outside what the string vocabulary here expresses). '
                   'That every doc string of the source reaches a writer and is reproduced completely is syn code (stand-in). Assumed: str::split yields '
                   'pieces without separator characters; "\\t".repeat(n) is indentation; trim_end introduces no line break; std::fmt `{}` semantics.',
     'design_ref': 'DESIGN.md section 10.11',
